@@ -267,22 +267,27 @@ example : iterate false 4 0 [0, 0, 0, 2, 0, 0, 0, 1, 0, 0, 0, 1, 0, 1, 107, 0, 1
 
 /-! ### MapScan / SliceMap destinations (Iter.RowData → helpers.go goType)
 
-FULL PROPERTY (does NOT hold): `∀ proto flags body r, newRow false proto flags body = some r → r.isCrash = false`
-Known bad: a map type whose key is not comparable as a Go type — `reflect.MapOf` panics (KF-C05-14).
-The excluded shape is syntactic (`colOk`): no map, at the places goType looks, keyed by blob, list,
-set, map, tuple or UDT (all legal as FROZEN map keys in CQL), and no NativeType carrying a collection
-id (which readTypeInfo never builds). -/
+History: with /repo at 19ec182 this check found that a map type whose key is not comparable as a Go
+type made `reflect.MapOf` panic in RowData / MapScan / SliceMap (KF-C05-14; the excluded shape was
+syntactic: a map, where goType looks, keyed by blob, list, set, map, tuple or UDT — all legal as FROZEN
+map keys in CQL). The guard is in /repo since commit c637d3e, and the FULL property now holds. -/
 
-theorem C05_rowdata_total_partial (cols : List TI) (n : Nat) (h : ∀ c ∈ cols, colOk c = true) :
-    (rowData cols n).isCrash = false := C05Rows.rowData_safe cols n h
+/-- FULL (current tree): RowData over the columns of ANY parsed ROWS frame never panics; the only
+remaining hypothesis — no NativeType carrying a collection id — is a fact about what readTypeInfo builds
+(`colNative`), not about the bytes. -/
+theorem C05_rowdata_total (cols : List TI) (n : Nat) (h : ∀ c ∈ cols, colNative c = true) :
+    (rowData cols n).isCrash = false :=
+  C05Rows.rowData_safe true cols n (fun c hc => ⟨Or.inl rfl, h c hc⟩)
 
-/-- a legal schema: one column of type map<frozen<list<int>>, int> -/
-theorem C05_cex_rowdata_map_key_list :
-    newRow false 4 0 [0, 0, 0, 2, 0, 0, 0, 1, 0, 0, 0, 1, 0, 1, 107, 0, 1, 116, 0, 1, 99, 0, 33, 0, 32, 0, 9, 0, 9, 0, 0, 0, 0] = some .crashMapOf := by decide +kernel
+/-- the code before c637d3e, for the record: no panic outside the excluded shape … -/
+theorem C05_rowdata_old_partial (cols : List TI) (n : Nat) (h : ∀ c ∈ cols, colOk c = true ∧ colNative c = true) :
+    (rowDataG false cols n).isCrash = false :=
+  C05Rows.rowData_safe false cols n (fun c hc => ⟨Or.inr (h c hc).1, (h c hc).2⟩)
 
-/-- map<blob, int> -/
-theorem C05_cex_rowdata_map_key_blob :
-    newRow false 4 0 [0, 0, 0, 2, 0, 0, 0, 1, 0, 0, 0, 1, 0, 1, 107, 0, 1, 116, 0, 1, 99, 0, 33, 0, 3, 0, 9, 0, 0, 0, 0] = some .crashMapOf := by decide +kernel
+/-- … and a panic on the legal column type map<frozen<list<int>>, int>, which is an error now -/
+theorem C05_rowdata_map_key_list_fixed :
+    newRowOld 4 0 [0, 0, 0, 2, 0, 0, 0, 1, 0, 0, 0, 1, 0, 1, 107, 0, 1, 116, 0, 1, 99, 0, 33, 0, 32, 0, 9, 0, 9, 0, 0, 0, 0] = some .crashMapOf ∧
+    newRow false 4 0 [0, 0, 0, 2, 0, 0, 0, 1, 0, 0, 0, 1, 0, 1, 107, 0, 1, 116, 0, 1, 99, 0, 33, 0, 32, 0, 9, 0, 9, 0, 0, 0, 0] = some .err := by decide +kernel
 
 /-- non-vacuity: map<int, list<int>> is fine -/
 example : newRow false 4 0 [0, 0, 0, 2, 0, 0, 0, 1, 0, 0, 0, 1, 0, 1, 107, 0, 1, 116, 0, 1, 99, 0, 33, 0, 9, 0, 32, 0, 9, 0, 0, 0, 0] = some (.ok 1) := by decide +kernel
